@@ -22,21 +22,33 @@ func receiveCaps() userCaps {
 
 // receiveLemma runs one symbolic ReceiveMessage and asserts the obligations of property p
 // ("" = all). eventsMayFail additionally lets every event emission fail (C14).
-func receiveLemma(p string, eventsMayFail bool) {
+func receiveLemma(p string, eventsMayFail bool) { receiveLemmaN(p, eventsMayFail, maxSigs, -1) }
+
+// receiveLemmaN: sigs bounds attesters and signatures; before >= 0 first lets a DIFFERENT keeper
+// instance successfully execute transaction `before` on an arbitrary other state in the same process.
+func receiveLemmaN(p string, eventsMayFail bool, sigs int, before int) {
+	if before >= 0 {
+		a := c18exec(before, "other_", "other_")
+		verifrt.Assume(a.ok)
+		verifrt.Cover("receive/other-instance-ran-first")
+	}
 	h := newH("")
 	c := receiveCaps()
-	h.setupUserState(maxSigs, c)
+	if sigs == 1 {
+		c.att = 66
+	}
+	h.setupUserState(sigs, c)
 	h.assumeThresholdInvariant()
 	verifrt.Assume(asciiStr(h.PairLocal))
 	h.Env.EventsMayFail(eventsMayFail)
 	h.Env.BeginTx()
 	ok, panicked, m := h.callUser(hReceiveMessage, c)
-	verifrt.ProbeAttestation("m_message", "m_attestation", "att", m.Message, m.Attestation, h.Att, maxSigs)
+	verifrt.ProbeAttestation("m_message", "m_attestation", "att", m.Message, m.Attestation, h.Att, sigs)
 
 	// ---- specification, from the reference decoder ----
 	r := refDecode(m.Message)
 	b := refDecodeBurn(m.Message)
-	attOK := refAttestationValid(m.Message, m.Attestation, h.Att, h.Threshold, maxSigs)
+	attOK := refAttestationValid(m.Message, m.Attestation, h.Att, h.Threshold, sigs)
 	used := verifrt.All(h.UsedSet, h.UsedDomain == r.Src, h.UsedNonce == r.Nonce)
 	callerOK := verifrt.Any(verifrt.IsZero(r.Caller), m.From.Str == verifrt.AddrOf(r.Caller[12:32]))
 	toModule := bytes.Equal(r.Recipient, modulePadded())
